@@ -94,6 +94,22 @@ def mixture(ctx, n, nfill, ntrace, prof):
             raised = False
         except InvalidChemistryException:
             raised = True
+        # second evaluation of the SAME object after a sampler step changed the fill ratios through their fitting
+        # parameters: the composition must follow the current values only
+        second = None
+        if not raised and nfill > 1:
+            ratios2 = [ctx.real('ratio2_%d' % i, ge=0) for i in range(nfill - 1)]
+            fp = chem.fitting_parameters()
+            for i in range(nfill - 1):
+                fp['%s_%s' % (fill[i + 1], fill[0])][3](ratios2[i])
+            try:
+                chem.initialize_chemistry(n, T, P, None)
+                second = (ratios2, chem.mixProfile.copy(), chem.muProfile.copy())
+            except InvalidChemistryException:
+                second = 'raised'
+            for i in range(nfill - 1):
+                fp['%s_%s' % (fill[i + 1], fill[0])][3](ratios[i])
+            chem.initialize_chemistry(n, T, P, None)
     totals = [sum((tr[j][l] for j in range(ntrace)), 0.0) for l in range(n)]
     exceeds = ctx.or_([ctx.lt(1.0, totals[l]) for l in range(n)]) if ntrace else False
     if raised:
@@ -125,6 +141,18 @@ def mixture(ctx, n, nfill, ntrace, prof):
         ctx.goal('mu[%d]' % l, ctx.eq(chem.muProfile[l], mu))
         for g, name in enumerate(gases):
             ctx.goal('get_gas_mix_profile[%s,%d]' % (name, l), ctx.eq(chem.get_gas_mix_profile(name)[l], mix[g, l]))
+    if second is not None:
+        ctx.goal('second_evaluation_accepted', second != 'raised')
+        if second != 'raised':
+            ratios2, mix2, mu2 = second
+            for l in range(n):
+                tot2 = sum((mix2[g, l] for g in range(1, len(gases))), mix2[0, l])
+                ctx.goal('second_sum_to_one[%d]' % l, ctx.eq(tot2, 1.0))
+                for i in range(1, nfill):
+                    ctx.goal('second_fill_ratio[%s,%d]' % (fill[i], l), ctx.eq(mix2[i, l], ratios2[i - 1] * mix2[0, l]))
+                mu = sum((mix2[g, l] * get_molecular_weight(gases[g]) for g in range(1, len(gases))),
+                         mix2[0, l] * get_molecular_weight(gases[0]))
+                ctx.goal('second_mu[%d]' % l, ctx.eq(mu2[l], mu))
     am, im = chem.activeGasMixProfile, chem.inactiveGasMixProfile
     ctx.goal('mask_rows', (am is None) == (len(exp_act) == 0) and (im is None) == (len(exp_inact) == 0) and
              (am is None or len(am) == len(exp_act)) and (im is None or len(im) == len(exp_inact)))
